@@ -49,7 +49,7 @@ def scenarios(rng, n, tier):
             any_ = rng.random() < 0.5
             if rng.random() < 0.15:
                 # the caller goes on using (clears, refills) the very tag set it passed when scheduling
-                scn["ops"].append({"op": "mutate", "key": rng.randrange(nj), "what": "tags"})
+                scn["ops"].append({"op": "mutate", "key": rng.randrange(nj), "what": rng.choice(["tags", "returned_tags"]), "how": rng.choice(["swap", "clear"])})
             if c < 0.6:
                 scn["ops"].append({"op": "get", "tags": q, "any": any_})
             elif c < 0.8:
